@@ -22,6 +22,7 @@ import (
 	"os"
 	"runtime"
 	"sync"
+	"sync/atomic"
 	"testing"
 	"time"
 	"unsafe"
@@ -60,13 +61,15 @@ func (c *failConn) Write(p []byte) (int, error) {
 }
 
 type parConn struct {
-	want    []ref.Msg
-	failAt  int
-	stream  []byte
-	werr    error
-	readGap time.Duration
-	backlog bool
-	stalled bool // nothing arrived for a minute of real time: the machine, not the code
+	want     []ref.Msg
+	failAt   int
+	stream   []byte
+	werr     error
+	readGap  time.Duration
+	backlog  bool
+	expect   int // bytes the whole queue encodes to
+	received atomic.Int64
+	stalled  bool // nothing arrived for a minute of real time: the machine, not the code
 }
 
 // tail appends one of the larger messages to the connection's queue.
@@ -90,7 +93,7 @@ func (c *parConn) tail(t *rapid.T, ci, i int, blocksp, extsp *int) {
 		exts++
 	case 4:
 		v := fmt.Sprintf("connection-%d-message-%d-%s", ci, i, string(gen.Fill(tag|4, 40)))
-		c.want = append(c.want, ref.Msg{Kind: ref.KExtended, Sub: 0, X: ref.XHandshake, HS: &ref.ExtHS{V: &v, M: map[string]uint8{"ut_pex": 1, "ut_metadata": 3}}})
+		c.want = append(c.want, ref.Msg{Kind: ref.KExtended, Sub: 0, X: ref.XHandshake, HS: &ref.ExtHS{V: &v, M: map[string]uint8{"ut_pex": 1, "ut_metadata": 3}, UploadOnly: new(bool)}})
 		exts++
 	default:
 		c.want = append(c.want, ref.Msg{Kind: ref.KHave, Index: uint32(ci*1000 + i)})
@@ -132,12 +135,11 @@ func TestC06ConnectionsInParallel(t *testing.T) {
 					c.tail(t, ci, i, &blocks, &exts)
 				}
 			}
+			for _, m := range c.want {
+				c.expect += len(ref.Encode(m))
+			}
 			if rapid.IntRange(0, 3).Draw(t, "fails") == 0 {
-				total := 0
-				for _, m := range c.want {
-					total += len(ref.Encode(m))
-				}
-				c.failAt = rapid.IntRange(0, total).Draw(t, "failAt")
+				c.failAt = rapid.IntRange(0, c.expect).Draw(t, "failAt")
 				failing++
 			}
 			conns[ci] = c
@@ -189,18 +191,14 @@ func TestC06ConnectionsInParallel(t *testing.T) {
 					close(startWriter)
 				}
 				// (the writer drops what is still buffered when its queue is closed:
-				// leave it the time to flush)
+				// the queue is closed when everything has arrived, or the writer has ended)
 			flushed:
-				for k := 0; k < 2000 && len(ch) > 0; k++ {
+				for k := 0; k < 600000 && c.received.Load() < int64(c.expect); k++ {
 					select {
 					case <-done:
 						break flushed
-					case <-time.After(50 * time.Microsecond):
+					case <-time.After(100 * time.Microsecond):
 					}
-				}
-				select {
-				case <-done:
-				case <-time.After(2 * time.Millisecond):
 				}
 			}()
 			go func() {
@@ -210,6 +208,7 @@ func TestC06ConnectionsInParallel(t *testing.T) {
 					b.SetReadDeadline(time.Now().Add(60 * time.Second))
 					k, err := b.Read(buf)
 					c.stream = append(c.stream, buf[:k]...)
+					c.received.Add(int64(k))
 					if err != nil {
 						var ne net.Error
 						if errors.As(err, &ne) && ne.Timeout() {
@@ -244,10 +243,12 @@ func TestC06ConnectionsInParallel(t *testing.T) {
 				}
 				m, k, err := ref.Decode(rest, ref.StorrentRoles)
 				if err != nil {
-					if c.failAt >= 0 || len(rest) < len(ref.Encode(w)) {
-						// cut in mid-message by the failure (or by the writer dropping its
-						// buffer when its queue closed): the whole messages before it count
+					if c.failAt >= 0 {
+						// cut in mid-message by the failure: the whole messages before it count
 						break
+					}
+					if os.Getenv("VERIF_C06_TIMING") != "" {
+						fmt.Printf("DEBUG rest=%d want=%d head=%x wanthead=%x stream=%d werr=%v\n", len(rest), len(ref.Encode(w)), rest[:min(len(rest), 40)], ref.Encode(w)[:40], len(c.stream), c.werr)
 					}
 					fatal("connection %d of %d, message %d: the wire does not decode (%v); queued was %s", ci, len(conns), i, err, describe(w))
 				}
@@ -260,6 +261,9 @@ func TestC06ConnectionsInParallel(t *testing.T) {
 			}
 			if c.failAt < 0 && c.werr != nil {
 				fatal("connection %d: Writer failed on a healthy connection: %v", ci, c.werr)
+			}
+			if c.failAt < 0 && (decoded != len(c.want) || len(rest) != 0) {
+				fatal("connection %d of %d is healthy: %d of its %d messages arrived, %d bytes are left over", ci, len(conns), decoded, len(c.want), len(rest))
 			}
 			if decoded == len(c.want) {
 				complete++
